@@ -119,6 +119,17 @@ def check_conc(prop, tier):
                 if not rw["violated"]:
                     raise ToolError("regression witness: the model instance with the stale-lookup amend (D3) must violate %s" % prop)
                 res.add(witness_D3=rw["violated"][0])
+            if tier == "thorough":
+                # beyond the exhaustive bounds: random behaviours of 4 threads x 2-3 calls on a 5-order book
+                wide = scen.wide_conc_scenarios(rng, 6)
+                open(modpath, "w").write(scen.conc_module(modname, wide).replace("GenIds == 1..4", "GenIds == 1..12"))
+                cfgs = conc_cfg(work, "sim", modname, CONC_INV[prop])
+                rs = tlc(modname, cfgs, work, workers=8, timeout=1800, simulate="num=600", extra=["-depth", "900"])
+                if rs["violated"] or (rs["error"] and rs["error"] != "timeout"):
+                    raise ToolError("simulation of the wide model instance: %s %s\n%s" % (rs["error"], rs["violated"], tail(rs["out"], 30)))
+                import re as _re
+                m = _re.search(r"(\d+) states checked, (\d+) traces generated", rs["out"])
+                res.add(simulated_states=int(m.group(1)) if m else 0, simulated_behaviours=int(m.group(2)) if m else 0, simulated_scenarios=len(wide))
         finally:
             os.remove(modpath)
 
@@ -133,7 +144,7 @@ def check_conc(prop, tier):
         h = run_harness("level", hs, work, "rp")
         s = tv(h["trace"], "MCTraceLevel", "TraceLevel", work)
         # final states must be the model's
-        ends = [l for l in read_trace_lines(h["trace"]) if l["k"] == "end"]
+        ends = trace_lines_of_kind(h["trace"], "end")
         mism = 0
         for rp, e in zip(replays, ends):
             st = e["st"]
@@ -314,7 +325,7 @@ def check_seq(prop, tier):
         hs = [scen.seq_scenario(rp["calls"]) for rp in replays]
         h = run_harness("level", hs, work, "rp")
         s = tv(h["trace"], "MCTraceSeq", "TraceSeq", work, timeout=3000)
-        ends = [l for l in read_trace_lines(h["trace"]) if l["k"] == "end"]
+        ends = trace_lines_of_kind(h["trace"], "end")
         mism = 0
         for rp, e in zip(replays, ends):
             st = e["st"]
